@@ -16,10 +16,11 @@ SKIP_TRAITS = {"std::fmt::Debug", "std::hash::Hash", "std::cmp::Eq", "std::clone
 
 def is_entry(fn):
     p = fn["path"]
-    if fn["sp"].startswith("src/array/vec/vec_array.rs") and os.environ.get("OHSA_VEC"):
-        return True
+    import vecspec
+    if vecspec.is_vec_entry(fn):
+        return True    # VECSPEC: the Vec backend's primitives against the array contract (C07)
     if fn["sp"].startswith("src/array/vec/"):
-        return False   # the Vec backend is axiomatised (array contract), not analysed
+        return False   # remaining Vec backend items (wrappers, union-find, hash-map counting): not analysed
     if p.startswith("semifinite::arrow") or "semifinite::arrow::SemifiniteArrow" in p:
         return False   # SemifiniteArrow: not anchored by any property (4 todo!() bodies)
     if fn.get("impl_trait") in SKIP_TRAITS:
@@ -89,6 +90,12 @@ class Shapecheck:
         key = fn["path"] + (("[" + inst_name + "]") if inst_name else "")
         I.entry = key
         n0 = len(I.obligations)
+        # per-entry registries of leaf kinds (leaf names such as `self` recur between entry points)
+        import lax_model
+        lax_model.LABEL_LEAVES.clear()
+        lax_model.LIST_ELEM.clear()
+        if hasattr(I, "_templates"):
+            I._templates.clear()
         st = State()
         fr0 = Frame(None)
         args = []
@@ -118,6 +125,14 @@ class Shapecheck:
             vals0 = [st.env[a.place[0]] if isinstance(a, VMutRef) else a for a in args]
             self.entry_assumed[key] = specs.entry_assumptions(fn["path"], names, vals0, st, self, fr0)
             self.entry_assumed[key] += specs.override_args(fn["path"], names, args, st)
+            import vecspec
+            vec_ref = None
+            if vecspec.is_vec_entry(fn):
+                n_f = len(st.lin.facts)
+                vec_ref = vecspec.reference(self, fn, args, st, fr0)
+                if vec_ref and "assumed" in vec_ref:
+                    self.entry_assumed[key] += ["array contract precondition: " + a for a in vec_ref["assumed"]]
+                    vec_ref["n_facts"] = n_f
             pre_muts = {nm: st.env[root] for (nm, root) in muts}
             n_facts0 = len(st.lin.facts)
             n_teq0 = len(st.teq)
@@ -140,7 +155,7 @@ class Shapecheck:
                     kept.append((s_, v_, c_))
             outs = kept
             res = {"fn": fn, "key": key, "outs": outs, "args": args, "muts": muts, "st0": st, "fr0": fr0,
-                   "pre_muts": pre_muts, "n_facts0": n_facts0, "n_teq0": n_teq0}
+                   "pre_muts": pre_muts, "n_facts0": n_facts0, "n_teq0": n_teq0, "vec_ref": vec_ref}
             # INV of every value leaving the function
             chk = Frame(fn, None)
             for (s, v, c) in outs:
